@@ -6,11 +6,12 @@
         open spec fn spec_enc(v: &u8) -> Seq<u8> { le_seq1(*v as nat) }
         open spec fn spec_dec(b: Seq<u8>) -> Option<(u8, int)> { if b.len() < 1 { None } else { Some((le_val1(b.subrange(0, 1)) as u8, 1)) } }
         open spec fn progresses() -> bool { true }
-        //@ fn exp:zvt_builder | impl Encoding<u8> for Default | encode | mod=encoding props=C17,C03
+        //@ fn exp:zvt_builder | impl Encoding<u8> for Default | encode | mod=encoding props=C17,C03 $M
         //@ end
-        //@ fn exp:zvt_builder | impl Encoding<u8> for Default | decode | mod=encoding props=C02,C17
+        //@ fn exp:zvt_builder | impl Encoding<u8> for Default | decode | mod=encoding props=C02,C17 $M
         //@ end
         open spec fn self_delimiting() -> bool { true }
+        open spec fn functional() -> bool { true }
         proof fn law_dec_bounds(b: Seq<u8>) {}
         //@ tag enc.law_dec_frame.le.u8 C14
         proof fn law_dec_frame(b: Seq<u8>, s: Seq<u8>) {
@@ -30,11 +31,12 @@
         open spec fn spec_enc(v: &u16) -> Seq<u8> { le_seq2(*v as nat) }
         open spec fn spec_dec(b: Seq<u8>) -> Option<(u16, int)> { if b.len() < 2 { None } else { Some((le_val2(b.subrange(0, 2)) as u16, 2)) } }
         open spec fn progresses() -> bool { true }
-        //@ fn exp:zvt_builder | impl Encoding<u16> for Default | encode | mod=encoding props=C17,C03
+        //@ fn exp:zvt_builder | impl Encoding<u16> for Default | encode | mod=encoding props=C17,C03 $M
         //@ end
-        //@ fn exp:zvt_builder | impl Encoding<u16> for Default | decode | mod=encoding props=C02,C17
+        //@ fn exp:zvt_builder | impl Encoding<u16> for Default | decode | mod=encoding props=C02,C17 $M
         //@ end
         open spec fn self_delimiting() -> bool { true }
+        open spec fn functional() -> bool { true }
         proof fn law_dec_bounds(b: Seq<u8>) {}
         //@ tag enc.law_dec_frame.le.u16 C14
         proof fn law_dec_frame(b: Seq<u8>, s: Seq<u8>) {
@@ -54,11 +56,12 @@
         open spec fn spec_enc(v: &u32) -> Seq<u8> { le_seq4(*v as nat) }
         open spec fn spec_dec(b: Seq<u8>) -> Option<(u32, int)> { if b.len() < 4 { None } else { Some((le_val4(b.subrange(0, 4)) as u32, 4)) } }
         open spec fn progresses() -> bool { true }
-        //@ fn exp:zvt_builder | impl Encoding<u32> for Default | encode | mod=encoding props=C17,C03
+        //@ fn exp:zvt_builder | impl Encoding<u32> for Default | encode | mod=encoding props=C17,C03 $M
         //@ end
-        //@ fn exp:zvt_builder | impl Encoding<u32> for Default | decode | mod=encoding props=C02,C17
+        //@ fn exp:zvt_builder | impl Encoding<u32> for Default | decode | mod=encoding props=C02,C17 $M
         //@ end
         open spec fn self_delimiting() -> bool { true }
+        open spec fn functional() -> bool { true }
         proof fn law_dec_bounds(b: Seq<u8>) {}
         //@ tag enc.law_dec_frame.le.u32 C14
         proof fn law_dec_frame(b: Seq<u8>, s: Seq<u8>) {
@@ -78,11 +81,12 @@
         open spec fn spec_enc(v: &u64) -> Seq<u8> { le_seq8(*v as nat) }
         open spec fn spec_dec(b: Seq<u8>) -> Option<(u64, int)> { if b.len() < 8 { None } else { Some((le_val8(b.subrange(0, 8)) as u64, 8)) } }
         open spec fn progresses() -> bool { true }
-        //@ fn exp:zvt_builder | impl Encoding<u64> for Default | encode | mod=encoding props=C17,C03
+        //@ fn exp:zvt_builder | impl Encoding<u64> for Default | encode | mod=encoding props=C17,C03 $M
         //@ end
-        //@ fn exp:zvt_builder | impl Encoding<u64> for Default | decode | mod=encoding props=C02,C17
+        //@ fn exp:zvt_builder | impl Encoding<u64> for Default | decode | mod=encoding props=C02,C17 $M
         //@ end
         open spec fn self_delimiting() -> bool { true }
+        open spec fn functional() -> bool { true }
         proof fn law_dec_bounds(b: Seq<u8>) {}
         //@ tag enc.law_dec_frame.le.u64 C14
         proof fn law_dec_frame(b: Seq<u8>, s: Seq<u8>) {
@@ -102,11 +106,12 @@
         open spec fn spec_enc(v: &usize) -> Seq<u8> { le_seq8(*v as nat) }
         open spec fn spec_dec(b: Seq<u8>) -> Option<(usize, int)> { if b.len() < 8 { None } else { Some((le_val8(b.subrange(0, 8)) as usize, 8)) } }
         open spec fn progresses() -> bool { true }
-        //@ fn exp:zvt_builder | impl Encoding<usize> for Default | encode | mod=encoding props=C17,C03
+        //@ fn exp:zvt_builder | impl Encoding<usize> for Default | encode | mod=encoding props=C17,C03 $M
         //@ end
-        //@ fn exp:zvt_builder | impl Encoding<usize> for Default | decode | mod=encoding props=C02,C17
+        //@ fn exp:zvt_builder | impl Encoding<usize> for Default | decode | mod=encoding props=C02,C17 $M
         //@ end
         open spec fn self_delimiting() -> bool { true }
+        open spec fn functional() -> bool { true }
         proof fn law_dec_bounds(b: Seq<u8>) {}
         //@ tag enc.law_dec_frame.le.usize C14
         proof fn law_dec_frame(b: Seq<u8>, s: Seq<u8>) {
@@ -127,11 +132,12 @@
         open spec fn spec_enc(v: &u8) -> Seq<u8> { be_seq1(*v as nat) }
         open spec fn spec_dec(b: Seq<u8>) -> Option<(u8, int)> { if b.len() < 1 { None } else { Some((be_val1(b.subrange(0, 1)) as u8, 1)) } }
         open spec fn progresses() -> bool { true }
-        //@ fn exp:zvt_builder | impl Encoding<u8> for BigEndian | encode | mod=encoding props=C17,C03
+        //@ fn exp:zvt_builder | impl Encoding<u8> for BigEndian | encode | mod=encoding props=C17,C03 $M
         //@ end
-        //@ fn exp:zvt_builder | impl Encoding<u8> for BigEndian | decode | mod=encoding props=C02,C17
+        //@ fn exp:zvt_builder | impl Encoding<u8> for BigEndian | decode | mod=encoding props=C02,C17 $M
         //@ end
         open spec fn self_delimiting() -> bool { true }
+        open spec fn functional() -> bool { true }
         proof fn law_dec_bounds(b: Seq<u8>) {}
         //@ tag enc.law_dec_frame.be.u8 C14
         proof fn law_dec_frame(b: Seq<u8>, s: Seq<u8>) {
@@ -151,11 +157,12 @@
         open spec fn spec_enc(v: &u16) -> Seq<u8> { be_seq2(*v as nat) }
         open spec fn spec_dec(b: Seq<u8>) -> Option<(u16, int)> { if b.len() < 2 { None } else { Some((be_val2(b.subrange(0, 2)) as u16, 2)) } }
         open spec fn progresses() -> bool { true }
-        //@ fn exp:zvt_builder | impl Encoding<u16> for BigEndian | encode | mod=encoding props=C17,C03
+        //@ fn exp:zvt_builder | impl Encoding<u16> for BigEndian | encode | mod=encoding props=C17,C03 $M
         //@ end
-        //@ fn exp:zvt_builder | impl Encoding<u16> for BigEndian | decode | mod=encoding props=C02,C17
+        //@ fn exp:zvt_builder | impl Encoding<u16> for BigEndian | decode | mod=encoding props=C02,C17 $M
         //@ end
         open spec fn self_delimiting() -> bool { true }
+        open spec fn functional() -> bool { true }
         proof fn law_dec_bounds(b: Seq<u8>) {}
         //@ tag enc.law_dec_frame.be.u16 C14
         proof fn law_dec_frame(b: Seq<u8>, s: Seq<u8>) {
@@ -175,11 +182,12 @@
         open spec fn spec_enc(v: &u32) -> Seq<u8> { be_seq4(*v as nat) }
         open spec fn spec_dec(b: Seq<u8>) -> Option<(u32, int)> { if b.len() < 4 { None } else { Some((be_val4(b.subrange(0, 4)) as u32, 4)) } }
         open spec fn progresses() -> bool { true }
-        //@ fn exp:zvt_builder | impl Encoding<u32> for BigEndian | encode | mod=encoding props=C17,C03
+        //@ fn exp:zvt_builder | impl Encoding<u32> for BigEndian | encode | mod=encoding props=C17,C03 $M
         //@ end
-        //@ fn exp:zvt_builder | impl Encoding<u32> for BigEndian | decode | mod=encoding props=C02,C17
+        //@ fn exp:zvt_builder | impl Encoding<u32> for BigEndian | decode | mod=encoding props=C02,C17 $M
         //@ end
         open spec fn self_delimiting() -> bool { true }
+        open spec fn functional() -> bool { true }
         proof fn law_dec_bounds(b: Seq<u8>) {}
         //@ tag enc.law_dec_frame.be.u32 C14
         proof fn law_dec_frame(b: Seq<u8>, s: Seq<u8>) {
@@ -199,11 +207,12 @@
         open spec fn spec_enc(v: &u64) -> Seq<u8> { be_seq8(*v as nat) }
         open spec fn spec_dec(b: Seq<u8>) -> Option<(u64, int)> { if b.len() < 8 { None } else { Some((be_val8(b.subrange(0, 8)) as u64, 8)) } }
         open spec fn progresses() -> bool { true }
-        //@ fn exp:zvt_builder | impl Encoding<u64> for BigEndian | encode | mod=encoding props=C17,C03
+        //@ fn exp:zvt_builder | impl Encoding<u64> for BigEndian | encode | mod=encoding props=C17,C03 $M
         //@ end
-        //@ fn exp:zvt_builder | impl Encoding<u64> for BigEndian | decode | mod=encoding props=C02,C17
+        //@ fn exp:zvt_builder | impl Encoding<u64> for BigEndian | decode | mod=encoding props=C02,C17 $M
         //@ end
         open spec fn self_delimiting() -> bool { true }
+        open spec fn functional() -> bool { true }
         proof fn law_dec_bounds(b: Seq<u8>) {}
         //@ tag enc.law_dec_frame.be.u64 C14
         proof fn law_dec_frame(b: Seq<u8>, s: Seq<u8>) {
@@ -223,11 +232,12 @@
         open spec fn spec_enc(v: &usize) -> Seq<u8> { be_seq8(*v as nat) }
         open spec fn spec_dec(b: Seq<u8>) -> Option<(usize, int)> { if b.len() < 8 { None } else { Some((be_val8(b.subrange(0, 8)) as usize, 8)) } }
         open spec fn progresses() -> bool { true }
-        //@ fn exp:zvt_builder | impl Encoding<usize> for BigEndian | encode | mod=encoding props=C17,C03
+        //@ fn exp:zvt_builder | impl Encoding<usize> for BigEndian | encode | mod=encoding props=C17,C03 $M
         //@ end
-        //@ fn exp:zvt_builder | impl Encoding<usize> for BigEndian | decode | mod=encoding props=C02,C17
+        //@ fn exp:zvt_builder | impl Encoding<usize> for BigEndian | decode | mod=encoding props=C02,C17 $M
         //@ end
         open spec fn self_delimiting() -> bool { true }
+        open spec fn functional() -> bool { true }
         proof fn law_dec_bounds(b: Seq<u8>) {}
         //@ tag enc.law_dec_frame.be.usize C14
         proof fn law_dec_frame(b: Seq<u8>, s: Seq<u8>) {
